@@ -24,7 +24,7 @@ import (
 
 // Fault is one modification of the ciphertext stream (C26).
 type Fault struct {
-	Kind   string `json:"kind"`   // bitflip | setbyte | truncate | drop | dup | swap | insert | inflate | random
+	Kind   string `json:"kind"`   // bitflip | setbyte | truncate | drop | dup | swap | insert | inflate | setlength | random
 	Packet int    `json:"packet"` // packet index the fault is aimed at
 	Off    int    `json:"off"`    // offset inside the packet (modulo its length), bit offset for bitflip
 	Val    int    `json:"val"`
@@ -123,7 +123,7 @@ func gen(r *rand.Rand, prop, tier string, index int) any {
 	if r.IntN(4) == 0 {
 		nf = 2 + r.IntN(2)
 	}
-	kinds := []string{"bitflip", "bitflip", "bitflip", "setbyte", "truncate", "drop", "dup", "swap", "insert", "inflate", "random"}
+	kinds := []string{"bitflip", "bitflip", "bitflip", "setbyte", "truncate", "drop", "dup", "swap", "insert", "inflate", "setlength", "setlength", "random"}
 	for i := 0; i < nf; i++ {
 		s.Faults = append(s.Faults, Fault{Kind: kinds[r.IntN(len(kinds))], Packet: r.IntN(n), Off: r.IntN(1 << 20), Val: r.IntN(256)})
 	}
@@ -430,6 +430,30 @@ func runC26(c *core.Ctx, s *Scenario) {
 				stream[a] ^= byte(1 + f.Val%255)
 				keepOpen = len(s.Faults) == 1
 				rt.Fault("wire-inflate-length")
+			}
+		case "setlength":
+			// set the declared packet length to a boundary value: the length
+			// field is in the clear (EtM, GCM) or XOR-malleable with known
+			// plaintext (CTR, RC4, chacha20-poly1305: the attacker knows the
+			// length from the packet size)
+			tag := 16
+			if !ssh.VerifIsAEAD(s.Cipher) {
+				tag = map[string]int{"hmac-sha1": 20, "hmac-sha1-96": 12, "hmac-sha2-256": 32, "hmac-sha2-512": 64, "hmac-sha2-256-etm@openssh.com": 32, "hmac-sha2-512-etm@openssh.com": 64}[s.MAC]
+			}
+			if s.Cipher == "none" {
+				tag = 0
+			}
+			if s.Cipher != "aes128-cbc" && s.Cipher != "3des-cbc" && b-a > 4+tag {
+				orig := uint32(b - a - 4 - tag)
+				targets := []uint32{maxPacket + 1, maxPacket + 2, 1 << 24, 1 << 31, 0xffffffec, 0xffffffed, 0xfffffff0, 0xfffffff7, 0xfffffffb, 0xffffffff, 0xfffffffe, 0x80000000 - 1}
+				t := targets[f.Val%len(targets)]
+				m := orig ^ t
+				stream[a] ^= byte(m >> 24)
+				stream[a+1] ^= byte(m >> 16)
+				stream[a+2] ^= byte(m >> 8)
+				stream[a+3] ^= byte(m)
+				keepOpen = len(s.Faults) == 1
+				rt.Fault("wire-set-length")
 			}
 		case "random":
 			stream = detBytes(uint64(f.Val)*7919+uint64(f.Off), 1+f.Off%600)
